@@ -28,7 +28,9 @@ def _dump(p):
 
 
 TARGETS = ["a", "b", "c", "ga", "gb", "t.x", "t.y", "t[1]", "t[2]", "t[a]", "ua", "ub"]
-SOURCES = ["k", "a", "b", "c", "ga", "t.x", "t[1]", "a+1", "b..a", "f()", "(f())", "ua", "nil", "K300", "a and b", "not a", "a<b", "{a}[1]", "-a", "#t"]
+SOURCES = ["k", "a", "b", "c", "ga", "t.x", "t[1]", "a+1", "b..a", "f()", "(f())", "ua", "nil", "K300", "a and b", "not a", "a<b", "{a}[1]", "-a", "#t",
+           "...", "(...)", "(select(2, ...))", "select('#', ...)", "obs()", "ident(b)", "ident(a)"]
+VARARG_SOURCES = {"...", "(...)", "(select(2, ...))", "select('#', ...)"}
 
 
 def _target(p, name):
@@ -82,6 +84,18 @@ def _source(p, name, k=42):
         return p.un("-", p.id("a"))
     if name == "#t":
         return p.un("#", p.id("t"))
+    if name == "...":
+        return p.dots()
+    if name == "(...)":
+        return p.paren(p.dots())
+    if name == "(select(2, ...))":
+        return p.paren(p.call(p.id("select"), [p.num(2), p.dots()]))
+    if name == "select('#', ...)":
+        return p.call(p.id("select"), [p.str("#"), p.dots()])
+    if name == "obs()":          # observes the locals at the moment it is evaluated (through upvalues)
+        return p.call(p.id("obs"), [])
+    if name in ("ident(a)", "ident(b)"):   # ... and through an argument
+        return p.call(p.id("ident"), [p.id(name[6])])
     raise ValueError(name)
 
 
@@ -102,14 +116,23 @@ def assign_case(ts, srcs, in_closure=False):
     ub, t, f are upvalues there."""
     p = Prog()
     ss = _prelude(p)
+    va = any(x in VARARG_SOURCES for x in srcs)
+    if "obs()" in srcs:
+        ss.append(p.localfunction("obs", p.func([], p.block([p.emit([p.str("obs"), p.id("a"), p.id("b"), p.id("c"), p.id("ua"), p.field(p.id("t"), "x")]), p.ret([p.num(77)])]))))
+    if any(x.startswith("ident(") for x in srcs):
+        ss.append(p.localfunction("ident", p.func(["v"], p.block([p.emit([p.str("ident"), p.id("v")]), p.ret([p.id("v")])]))))
     st = p.assign([_target(p, t) for t in ts], [_source(p, s, 40 + i) for i, s in enumerate(srcs)])
     if in_closure:
         body = p.block([st, p.ret([p.id("a")])])
-        ss.append(p.localfunction("run", p.func([], body)))
-        ss.append(p.emit([p.call(p.id("run"), [])]))
+        ss.append(p.localfunction("run", p.func([], body, va=va, ud=va)))
+        ss.append(p.emit([p.call(p.id("run"), [p.dots()] if va else [])]))
     else:
         ss.append(st)
     ss.append(_dump(p))
+    if va:
+        # the whole program is the body of a vararg function called with three values
+        return p, p.block([p.localfunction("main", p.func([], p.block(ss), va=True, ud=True)),
+                           p.callstat(p.call(p.id("main"), [p.num(91), p.num(92), p.num(93)]))])
     return p, p.block(ss)
 
 
